@@ -22,6 +22,8 @@ terminals
 WS: /\\s+/;
 Comment: /\\/\\/.*/;
 '''
+# error examples with hints (docs/handling_errors.md): compiled into <grammar>.pgec by the first parser built from the grammar FILE, loaded by later ones
+HINTS = "n +\n:::\nAn operand is expected after an operator.\n=====\nn n\n:::+\nTwo operands in a row.\n"
 INPUTS = {"ok": "n + n * n", "bad": "n + * n + n", "act": "n + boom", "rec": "n + !", "recerr": "n ! n", "kw": "forest + for", "empty": ""}
 
 
@@ -118,10 +120,21 @@ def _reply(real, parser, x):
         loc = getattr(e, "location", None)
         pos = loc.start_position if loc is not None and loc.start_position is not None else -1
         exp = sorted(s.name for s in getattr(e, "symbols_expected", None) or [])
-        return ["exc", type(e).__name__, pos, exp]
+        return ["exc", type(e).__name__, pos, exp, str(getattr(e, "hint", None))]
 
 
 def _new_grammar(real, variant):
+    if variant == "file":
+        # a grammar FILE with an error-examples file next to it, in a directory of its own (so a fresh grammar never sees compiled hints or tables)
+        import tempfile
+
+        d = tempfile.mkdtemp(prefix="life-", dir=scratch())
+        with open(os.path.join(d, "g.pg"), "w") as f:
+            f.write(GRAMMAR)
+        with open(os.path.join(d, "g.pge"), "w") as f:
+            f.write(HINTS)
+        with real.quiet():
+            return real.Grammar.from_file(os.path.join(d, "g.pg"), recognizers={"RX": _rx})
     with real.quiet():
         return real.Grammar.from_string(grammar_text(variant), recognizers={"RX": _rx})
 
@@ -172,6 +185,13 @@ def build(tier, seed):
     hs, sims, gstats = histories(p["max_steps"], p["sim"], p["sim_depth"], seed)
     jobs = [{"variant": v, "hist": h, "origin": "det"} for h in hs for v in ("plain", "layout")]
     jobs += [{"variant": ("plain", "layout")[i % 2], "hist": h, "origin": "rand"} for i, h in enumerate(sims)]
+    # grammar from a FILE with error hints: histories whose builds all share the table options (the table cache next to the file ignores the
+    # options it was written under: known finding C12-KF1, not C15's subject), i.e. only {lr, lrrec} or only {glr, glrrec}, no failing build
+    def one_table(h):
+        kinds = {a for op, a, b in h if op in ("build", "buildfail")}
+        return not any(op == "buildfail" for op, a, b in h) and (kinds <= {"lr", "lrrec"} or kinds <= {"glr", "glrrec"})
+    jobs += [{"variant": "file", "hist": h, "origin": "det"} for h in hs if one_table(h)]
+    jobs += [{"variant": "file", "hist": h, "origin": "rand"} for h in sims if one_table(h)]
     log("lifecycle: %d exhaustive + %d simulated histories from TLC" % (len(hs), len(sims)))
     traces = pool.flatten(pool.run_jobs("stage_life", "replay", jobs, chunksize=8))
     log("lifecycle histories replayed in %.1fs" % t.s())
